@@ -268,6 +268,10 @@ def arrays_and_compositions():
         ("AnyOf(nested)", lambda: AnyOf(AllOf(Integer(), Element(multipleOf=2)), OneOf(String(), Array(String())), Not(Element()))),
         ("AllOf(obj-ish)", lambda: AllOf(Element(required=["a"]), Element(properties={"a": Property(Integer())}), Element(minProperties=1))),
         ("AnyOf(classes)", lambda: AnyOf(_cls_plain(), _cls_renamed(), Integer())),
+        ("AllOf(Not(..), Element(props with defaults))", lambda: AllOf(Not(Element(required=["legacy"])), Element(properties={"size": Property(Integer(default=3)), "tag": Property(String())}))),
+        ("AllOf(Not(..), class with defaults)", lambda: AllOf(Not(Element(required=["legacy"])), _cls_default_obj())),
+        ("Element(Not property + pattern)", lambda: Element(properties={"cfg": Property(Not(Element(required=["legacy"])))}, patternProperties={"^c": Element(properties={"size": Property(Integer(default=3))})})),
+        ("AnyOf(Not(..), ..) / OneOf", lambda: OneOf(AllOf(Not(String()), Element(properties={"d": Property(Integer(default=1))})), String())),
         ("OneOf(class, untyped)", lambda: OneOf(_cls_plain(), Element(required=["zz"]))),
         ("Array(class)", lambda: Array(_cls_nested())),
         ("Not(class)", lambda: Not(_cls_plain())),
